@@ -1286,3 +1286,40 @@ def reg_var_names(fn):
                     if d and 'name' in d:
                         out[v[1]] = d['name'].strip('"')
     return out
+
+
+def var_roles(fn, P):
+    """source-variable names by what they are initialised from, so that rules can name a local by its role instead
+    of its spelling: {'.field': var} for `var = obj->field`, {'param:NAME': var} for `var = NAME`,
+    {'*param:NAME': var} for `var = *NAME`.  Derived from the llvm.dbg.value that binds the initial value."""
+    from prov import strip_casts, path_key
+    out = {}
+    for b in fn.blocks.values():
+        for i in b.insns:
+            if i.op != 'dbg' or 'var' not in i.extra:
+                continue
+            v = i.extra['val']
+            if not (isinstance(v, tuple) and len(v) >= 2 and v[0] == 'reg'):
+                continue
+            d = fn.module.md_fields(i.extra['var'])
+            if not d or 'name' not in d:
+                continue
+            name = d['name'].strip('"')
+            try:
+                e = strip_casts(P.expr(v))
+            except Exception:
+                continue
+            key = None
+            if e[0] == 'load':
+                a = e[1]
+                if a[2] and a[2][-1][0] == 'f':
+                    key = path_key(a[2][-1:])
+                elif not a[2] and a[1][0] == 'V' and strip_casts(a[1][1])[0] == 'param':
+                    key = '*param:' + strip_casts(a[1][1])[2]
+            elif e[0] == 'param':
+                key = 'param:' + e[2]
+            if key is not None:
+                if key.startswith('param:') and name == key[6:]:
+                    continue            # the parameter itself, not a local initialised from it
+                out.setdefault(key, name)
+    return out
